@@ -1,9 +1,10 @@
 """C08 / C09: plan step (FullControlT::updatePlan, C_::deepUpdatePlans, task reports)."""
 from contracts.common import *
 from contracts.machine import *
-import contracts.c10 as c10
+import importlib as _il
+c10 = globals().get('C10_MODULE') or _il.import_module('contracts.c10')
 
-CAPMAX = 4
+CAPMAX = globals().get('CAPMAX_OVERRIDE', 4)
 UP_RECS = dict(RECS); UP_RECS.update(c10.PL_RECS); UP_RECS.update({'S_head': r'^ffsm2::detail::S_<255,', 'Origin': r'^ffsm2::detail::ControlT<.*>::Origin$'})
 UNITS = []
 DRAFTS = [dict(id='plans.draft.updatePlan', witness=W, recs=UP_RECS, opaque=[r'^Ctx$', r'LoggerInterfaceT<', r'^ffsm2::detail::S_<'], props=['DRAFT'], draft=True,
@@ -246,7 +247,7 @@ UNITS += [
 ]
 
 # ---- PlanDataT: the functions other units assume by contract (clear / clearTaskStatus / clearRegionStatuses)
-import contracts.c17 as _c17
+_c17 = globals().get('C17_MODULE') or _il.import_module('contracts.c17')
 PDX = 'self'
 def _pd_bit(arr, st):
     return '((self->%s._storage[(%s) >> 3] >> ((%s) & 7)) & 1u)' % (arr, st, st)
